@@ -63,7 +63,7 @@ def finding_class(units, ans):
             for _, src in units:
                 ext = external_symbols(src)
                 if seen & ext:
-                    return "dup-external-symbol"
+                    break       # (F15 repaired: reported as E421 before anything is linked; a crash has another cause)
                 seen |= ext
             # same-named structures / words in several modules (they are private to their modules)?
             decls = [set(re.findall(r"^(?:pub\s+)?(?:struct|word\d+)\s+([A-Za-z_][A-Za-z0-9_]*)", src, re.M)) for _, src in units]
